@@ -85,6 +85,10 @@ def Defn.refsTo (D : Defn) (x : Nat) : Nat := D.children.countP (fun c => c.ref 
 def Design.refCount (d : Design) (x : Nat) : Nat :=
   d.extra x + ((List.range d.ndefs).map (fun j => (d.defs j).refsTo x)).sum
 
+/-- ASCII lower-casing (`str.lower()` on the identifiers considered; EDIF identifiers are ASCII): the
+    EDIF naming policy compares the `EDIF.identifier` entries of siblings case-insensitively -/
+def lowerStr (s : String) : String := String.ofList (s.toList.map Char.toLower)
+
 /-- all pins listed by the wires of a cable list, in order -/
 def allPins (cs : List Cable) : List Pin := (cs.flatMap (·.wires)).flatten
 
